@@ -111,6 +111,11 @@ fn run_case(cfg: &Config, mem: bool, hist: &[Op], plan: &[(usize, Mode)], strict
     }
     Err(p) => return fail(None, format!("reopen panicked: {p}")),
   };
+  if strict && !plan.is_empty() {
+    if let Err(w) = check_durable_queue(&ex.env, op, res.is_ok(), &ex.model.log, &post_model.log) {
+      return fail(None, w);
+    }
+  }
   let mut outcome;
   match &res {
     Ok(()) => {
@@ -168,6 +173,67 @@ fn run_case(cfg: &Config, mem: bool, hist: &[Op], plan: &[(usize, Mode)], strict
     }
   }
   Case { sites, fired, verdict: Some(Ok(())), outcome }
+}
+
+
+/// The durable queue: operations in the log after the last commit marker, as (kind, id).
+fn durable_queue(env: &Env) -> anyhow::Result<Vec<(String, String)>> {
+  let recs = wal_records(env)?;
+  let start = recs.iter().rposition(|r| r == "commit").map(|i| i + 1).unwrap_or(0);
+  Ok(
+    recs[start..]
+      .iter()
+      .map(|r| {
+        let mut it = r.splitn(3, ':');
+        (it.next().unwrap_or("").to_string(), it.next().unwrap_or("").to_string())
+      })
+      .collect(),
+  )
+}
+
+fn model_queue(log: &[QOp]) -> Vec<(String, String)> {
+  log
+    .iter()
+    .map(|q| match q {
+      QOp::Add(id, _) => ("add".to_string(), id.clone()),
+      QOp::Del(id) => ("del".to_string(), id.clone()),
+    })
+    .collect()
+}
+
+/// "... with the queued operations still retryable": the queue lives in the log, which is what a
+/// later handle (or process) replays. After Err the log must still hold the operations queued
+/// before the call (a failed add / delete may or may not have reached it; a failed rollback may
+/// or may not have emptied it); after Ok it must hold the model's queue.
+fn check_durable_queue(env: &Env, op: &Op, ok: bool, pre_log: &[QOp], post_log: &[QOp]) -> Result<(), String> {
+  let got = match durable_queue(env) {
+    Ok(g) => g,
+    Err(e) => return Err(format!("the log cannot be replayed after {} -> {}: {e:#}", op.short(), if ok { "Ok" } else { "Err" })),
+  };
+  let pre = model_queue(pre_log);
+  let post = model_queue(post_log);
+  let mut allowed: Vec<Vec<(String, String)>> = Vec::new();
+  if ok {
+    allowed.push(post);
+  } else {
+    allowed.push(pre.clone());
+    match op {
+      Op::Add(..) | Op::Del(..) => allowed.push(post),
+      Op::Rollback(_) => allowed.push(Vec::new()),
+      _ => {}
+    }
+  }
+  if allowed.contains(&got) {
+    Ok(())
+  } else {
+    Err(format!(
+      "{} returned {} but the log now holds the queued operations {:?}; expected {:?} (a new handle replays the log, so the queued operations are no longer retryable)",
+      op.short(),
+      if ok { "Ok" } else { "Err" },
+      got,
+      allowed
+    ))
+  }
 }
 
 struct TaskOut {
@@ -262,14 +328,17 @@ pub fn run(ctx: &Ctx) -> i32 {
     vec![],
     vec![Op::New(0), a("A", "1"), Op::Commit(0)],
     vec![Op::New(0), a("A", "1"), a("B", "1"), Op::Commit(0), a("A", "2"), Op::Commit(0)],
+    // a fresh handle over a non-empty log (queued by an earlier handle): its own append cursor has not moved yet
+    vec![Op::New(0), a("A", "1"), Op::Commit(0), a("B", "1"), Op::Del(0, "A".into()), Op::DropH(0), Op::New(0)],
   ];
   let mut seen: HashSet<String> = HashSet::new();
   let mut frontier: Vec<(Vec<Op>, Model, usize)> = Vec::new();
   for r in roots {
     let o = execute(&cfg, &r);
-    if seen.insert(o.key.clone()) {
-      frontier.push((r, o.model, o.nseg));
-    }
+    // roots are never merged: the last one equals another in the model (same contents, queue and
+    // handle state) but differs in the implementation (a replayed vs a self-written log)
+    seen.insert(o.key.clone());
+    frontier.push((r, o.model, o.nseg));
   }
   let mut states = frontier.len() as u64;
   let (mut transitions, mut cases, mut fired, mut pair_cases) = (0u64, 0u64, 0u64, 0u64);
@@ -353,7 +422,7 @@ pub fn run(ctx: &Ctx) -> i32 {
   }
   let cov = vcore::cov! {
     "distinct_nontrivial" => fired + pair_cases,
-    "rule" => "for every state of a BFS over single-handle histories (roots: empty, one segment, two segments + tombstone) and every enabled operation: the operation is executed once per storage fault site (every Storage trait call and every read/write/flush/seek/set_len/sync_all on the files it returns), failing before or after the site's effect; pairs: a second fault at every site the first fault's error path reaches. A case is non-trivial (counted) when its fault actually fired. Single faults: Err => same-Index reader and reopened index show the pre-state and a retry on healthy storage succeeds with the post-state; Ok => both views show the post-state. Pairs: no panic, index reopenable with all referenced files, Ok => post-state.",
+    "rule" => "for every state of a BFS over single-handle histories (roots: empty, one segment, two segments + tombstone, one segment + a fresh handle over a log with a queued add and delete) and every enabled operation: the operation is executed once per storage fault site (every Storage trait call and every read/write/flush/seek/set_len/sync_all on the files it returns), failing before or after the site's effect; pairs: a second fault at every site the first fault's error path reaches. A case is non-trivial (counted) when its fault actually fired. Single faults: Err => same-Index reader and reopened index show the pre-state and a retry on healthy storage succeeds with the post-state; Ok => both views show the post-state; in both cases the operations the log holds after the call (what a later handle replays) must be the queue of the model. Pairs: no panic, index reopenable with all referenced files, Ok => post-state.",
     "states" => states,
     "transitions" => transitions,
     "single_fault_cases_fired" => fired,
